@@ -63,6 +63,7 @@ pub struct Aig<L> {
 pub enum LitDef<L> {
     Constant,
     Input(usize),
+    Latch(usize),
     AndGate(OrderedAndGate<L>),
 }
 
@@ -85,6 +86,14 @@ impl<L: Lit> Aig<L> {
         for (i, &lit) in self.inputs.iter().enumerate() {
             if defs.contains_key(&L::from_code(1 ^ lit.code()))
                 || defs.insert(lit, LitDef::Input(i)).is_some()
+            {
+                return Err(AigStructureError::LitAlreadyDefined { lit });
+            }
+        }
+
+        for (i, &Latch { state: lit, .. }) in self.latches.iter().enumerate() {
+            if defs.contains_key(&L::from_code(1 ^ lit.code()))
+                || defs.insert(lit, LitDef::Latch(i)).is_some()
             {
                 return Err(AigStructureError::LitAlreadyDefined { lit });
             }
